@@ -722,6 +722,9 @@ class Translator:
                 return [stmt] + goto_ret
             if name == 'TAKE_SLICE':
                 a = avs[0][0]
+                pt = peel(avs[0][1])
+                if pt[0] == 'ptr' and peel(pt[1])[0] == 'prim':      # mem::take::<usize> etc.: Default is 0
+                    return ['{ %s = *%s; *%s = 0; }' % (de, a, a)] + goto_ret
                 return ['{ %s = *%s; (*%s).ptr = EMPTY; (*%s).len = 0; }' % (de, a, a, a)] + goto_ret
             if name == 'FAT_PTR':
                 return ['%s = %s.ptr;' % (de, avs[0][0])] + goto_ret
